@@ -405,7 +405,8 @@ def kde(xy, ngrid=50, eps=1e-10):
     xx, yy = np.meshgrid(x, y)
 
     if eps > 0.:
-        xy += np.random.uniform(-eps, eps, size=xy.shape)
+        # jitter a new array, not the caller's data
+        xy = xy + np.random.uniform(-eps, eps, size=xy.shape)
 
     kd = gaussian_kde(xy.T)
     zz = kd(np.vstack([xx.ravel(), yy.ravel()]))
